@@ -518,8 +518,14 @@ fn bc_value(rep: &mut Report, assertion: &str, fname: &str, args: Value, t: f64,
     let regime = format!("{}:{}", fname, bc_regime(lambda, y));
     rep.seen(&regime, 1);
     // stable-evaluation bound: the reference itself carries ~2u|y| (rounded λ·ln t), the function is well conditioned
-    let bound = 16.0 * EPS * (1.0 + y) * r.abs() + TINY;
+    // The statement fixes the value, not an accuracy. A literal (t^λ − 1)/λ loses log2(1/|λ ln t|) bits to
+    // cancellation; a few digits of that are an admissible implementation choice, the total loss of the
+    // original code (boxcox(2, 1e-17) = 0) is not. The line is drawn at 2^-40 (9.1e-13) relative: every
+    // formula is accepted as long as it delivers twelve digits.
+    let bound = (16.0 * EPS * (1.0 + y)).max(9.094947017729282e-13) * r.abs() + TINY;
+    let tight = 16.0 * EPS * (1.0 + y) * r.abs() + TINY;
     let err = (got - r).abs();
+    rep.note_max(&format!("info.worst_ratio.{}.vs_16eps_stable_evaluation_bound", fname), if err.is_nan() { f64::INFINITY } else { err / tight });
     let ratio = if err.is_nan() { f64::INFINITY } else { err / bound };
     if y >= 1.0 || lambda == 0.0 {
         rep.note_max(&format!("worst_ratio.{}.formula(regimes without cancellation)", fname), ratio);
@@ -529,7 +535,7 @@ fn bc_value(rep: &mut Report, assertion: &str, fname: &str, args: Value, t: f64,
         let naive = 4.0 * EPS * (t.powf(lambda) + 1.0) / lambda.abs() + 16.0 * EPS * (1.0 + y) * r.abs() + TINY;
         rep.note_max(&format!("worst_ratio.{}.vs_cancellation_bound_of_literal_formula", fname), if err.is_nan() { f64::INFINITY } else { err / naive });
     }
-    rep.check(assertion, &regime, ratio <= 1.0, || json!({"args": args, "t=x+shift": t, "lambda": lambda, "got": jnum(got), "expected": jnum(r), "rel_err": jnum(err / r.abs()), "rel_bound": 16.0 * EPS * (1.0 + y), "|λ·ln t|": y}));
+    rep.check(assertion, &regime, ratio <= 1.0, || json!({"args": args, "t=x+shift": t, "lambda": lambda, "got": jnum(got), "expected": jnum(r), "rel_err": jnum(err / r.abs()), "rel_bound": (16.0 * EPS * (1.0 + y)).max(9.094947017729282e-13), "|λ·ln t|": y}));
 }
 
 fn gen_lambda(rng: &mut Rng, i: usize) -> f64 {
@@ -1307,7 +1313,7 @@ pub fn run(cfg: &Cfg, rep: &mut Report) {
     rep.assume("softmax order preservation is non-strict (x_i < x_j ⇒ s_i <= s_j, equal inputs ⇒ identical outputs): far-below-maximum entries legitimately underflow to equal values");
     rep.assume("softmax inputs lie on a 2^-20 grid so that adding ±1e3, ±1e4 is exact; shifted vectors with an entry beyond ±1e4 are skipped");
     rep.assume("binom_coeff is not judged when C(n,k) >= 2^64 (the property is silent there); binom_coeff_alt is judged for n <= 67 (exact up to 45 as documented, then 1e-12 relative or ±2) and, for every n from 68 up to the largest n whose factorial is a finite f64 (170) with k <= 32 or k >= n-32 and C(n,k) < 2^64, against |got − C| <= floor(b·C + 1/2) with the a-priori relative bound b = expm1(3e-13 + 2u(ln n! + ln k! + ln (n−k)!) + u(|ln n! − ln k!| + ln C)) + 2u <= 6.9e-13 that follows from the 1e-13 gamma accuracy of C09 and a 1-ulp ln/exp (exact wherever b·C < 1/2); beyond that n gamma overflows and the returned value is counted in coverage.notes, not judged");
-    rep.assume("Box–Cox accuracy is judged against the conditioning of the function ((x^λ−1)/λ is well conditioned near λ = 0): 16ε(1+|λ ln t|) relative");
+    rep.assume("Box–Cox: the statement fixes the value, not an accuracy; results are judged at max(16ε(1+|λ ln t|), 2^-40) relative (twelve digits: a literal (t^λ−1)/λ away from λ ln t = 0 passes, the total cancellation near 0 does not); the ratio against the tight 16ε bound is recorded in coverage.notes");
     // added families first (rejection probes, history independence): merged while the report is small
     run_added_families(cfg, rep);
     run_logistic(cfg, rep);
